@@ -90,6 +90,7 @@ type world struct {
 	ntOp   bool // a RENAME moved an inferior or a DELETE left a \Noselect parent
 	ntPat  bool // a queried pattern had a wildcard next to a delimiter
 	failed bool
+	idle   bool
 }
 
 // do sends a command. A panic of a gluon goroutine (recorded by the bed's panic handler; the default handler would
@@ -428,7 +429,7 @@ func (w *world) rename() {
 		to = strings.TrimSuffix(to, w.delim)
 	}
 
-	if ns.UnderRecovery(w.m.Canon(to)) && !strings.EqualFold(to, ns.Recovery) && kf.Listed(kfRenameRecovery) {
+	if w.m.BelowRecovery(to) && kf.Listed(kfRenameRecovery) {
 		ev.Excluded(1)
 		w.label("steer:rename-under-recovery")
 
@@ -1033,7 +1034,8 @@ func (w *world) classify(ref, pattern string) {
 func (w *world) step(f func()) func(*rapid.T) {
 	return func(t *rapid.T) {
 		if w.steps >= maxSteps {
-			t.Skip("step limit")
+			w.idle = true // step limit reached: the rest of the drawn steps are no-ops
+			return
 		}
 
 		w.steps++
@@ -1093,6 +1095,10 @@ func run(t *rapid.T) {
 		"connRename":  w.step(w.connRename),
 		"connDelete":  w.step(w.connDelete),
 		"": func(t *rapid.T) {
+			if w.idle {
+				return
+			}
+
 			ref, pattern := w.drawQuery()
 
 			// known finding C14-percent-delimiter-class
